@@ -31,7 +31,7 @@ def run_db_batch(binary, name, cases, gates=False, seed=1, timeout=300, keys=Non
     rc, out, err, to = common.run_proc([binary, "db", in_path, trace], timeout, env=penv)
     err_s = (err or b"").decode("utf-8", "replace")
     if to or rc != 0:
-        if rc == 3 or rc == 2:
+        if rc == 3 or rc == 4:       # the driver's own errors; 2 is a Go panic / fatal error (deadlock) of the code under test
             raise MachineryError("driver db failed: " + err_s[-2000:])
         msg = "hang: driver did not finish within %ds" % timeout if to else "process died rc=%s: %s" % (rc, _panic_line(err_s))
         with open(trace, "a") as f:
